@@ -1,3 +1,80 @@
-/- Property theorems for C09 (stub: not built yet). -/
+/-
+C09  Composite forecasters mean exactly the composition of their parts.
+
+Property theorems about SkVerif/Model/Compose.lean (EnsembleForecaster, TransformedTargetForecaster,
+MultiplexForecaster, StackingForecaster as machines built from arbitrary member machines) against the
+vocabulary of SkVerif/Spec/Compose.lean.  Every theorem is universally quantified over the member
+machines (any state type, so members may themselves be composites of any depth), over all series,
+horizons and — where a history is involved — all call histories.  `x.run = .ok (v, log)` reads
+"the call succeeded with value `v` and the recording leaves were handed `log`".
+
+Only theorems and non-vacuity examples here; helper lemmas live in SkVerif/Lemmas/Compose*.lean.
+-/
+import SkVerif.Lemmas.Compose
+import SkVerif.Lemmas.ComposeAgg
+import SkVerif.Props.C01
 namespace SkVerif.C09
+open SkVerif SkVerif.Compose
+open W (bind_eq_ok pure_eq_ok lift_bind_eq_ok lift_eq_ok tell_bind_eq_ok fail_bind run_bind)
+
+/-! ## 1. The aggregates -/
+
+/-- mean: (mean of the members' values) · (number of members) = their sum -/
+theorem agg_mean_spec (vs : List Rat) (h : vs ≠ []) :
+    aggVals .mean vs * (vs.length : Rat) = sumR vs := by
+  have : (vs.length : Rat) ≠ 0 := by
+    have : vs.length ≠ 0 := by intro h0; exact h (List.length_eq_zero_iff.mp h0)
+    exact_mod_cast this
+  simp only [aggVals]
+  field_simp
+
+/-- min: one of the members' values, and no member's value is below it -/
+theorem agg_min_spec (vs : List Rat) (h : vs ≠ []) :
+    aggVals .min vs ∈ vs ∧ ∀ x ∈ vs, aggVals .min vs ≤ x := by
+  cases vs with
+  | nil => exact absurd rfl h
+  | cons v r =>
+    simp only [aggVals]
+    constructor
+    · rcases minR_mem v r with h1 | h1
+      · rw [h1]; exact List.mem_cons_self
+      · exact List.mem_cons_of_mem _ h1
+    · intro x hx
+      rcases List.mem_cons.mp hx with rfl | hx
+      · exact minR_le_init _ _
+      · exact minR_le_mem _ _ x hx
+
+/-- max: one of the members' values, and no member's value is above it -/
+theorem agg_max_spec (vs : List Rat) (h : vs ≠ []) :
+    aggVals .max vs ∈ vs ∧ ∀ x ∈ vs, x ≤ aggVals .max vs := by
+  cases vs with
+  | nil => exact absurd rfl h
+  | cons v r =>
+    simp only [aggVals]
+    constructor
+    · rcases maxR_mem v r with h1 | h1
+      · rw [h1]; exact List.mem_cons_self
+      · exact List.mem_cons_of_mem _ h1
+    · intro x hx
+      rcases List.mem_cons.mp hx with rfl | hx
+      · exact maxR_ge_init _ _
+      · exact maxR_ge_mem _ _ x hx
+
+/-- median: there is an ascending rearrangement `s` of the members' values such that the median is
+its middle element (odd count) or the mean of its two middle elements (even count) -/
+theorem agg_median_spec (vs : List Rat) :
+    ∃ s : List Rat, s.Perm vs ∧ s.Pairwise (· ≤ ·) ∧
+      aggVals .median vs =
+        if s.length % 2 = 1 then s.getD (s.length / 2) 0
+        else (s.getD (s.length / 2 - 1) 0 + s.getD (s.length / 2) 0) / 2 :=
+  ⟨sortRats vs, sortRats_perm vs, sortRats_sorted vs, rfl⟩
+
+/-- the online ensemble without an ensemble algorithm weighs every member by 1/count: a mean -/
+theorem agg_online_spec (vs : List Rat) : aggVals .online vs = aggVals .mean vs := by
+  simp only [aggVals, sumR_map_mul]
+  exact (div_eq_mul_one_div _ _).symm
+
+example : aggVals .median [3, 1, 2] = 2 ∧ aggVals .median [4, 1, 3, 2] = 5 / 2 ∧ aggVals .mean [1, 2, 4] = 7 / 3
+    ∧ aggVals .min [3, 1, 2] = 1 ∧ aggVals .max [3, 1, 2] = 3 := by decide +kernel
+
 end SkVerif.C09
